@@ -7,7 +7,7 @@ PROPERTY = 'C04'
 LEVEL = 'exploration'
 RULE = ('every sequence of <=k operations over {shell, exec_out, streaming_shell, root, list, stat, pull, push} on one connection (ids and leftover state chain) x '
         'remote-id families {small, 32-bit extremes, reused id, mirrored ids} x maxdata {4096, 64 KiB, 1 MiB} x chunkings {one, two, byte-wise} x CLSE {after ack, eager} x '
-        'push size {single, multi WRTE} x twins, device wire order enumerated; a slow device (late WRTE/CLSE against timeout_s, late OKAY inside a multi-WRTE push); oracle: the stream monitor of mc/monitor.py (OPEN shape and fresh id, '
+        'push size {single, multi WRTE} x twins, device wire order enumerated; a slow device (late WRTE/CLSE against timeout_s, late OKAY inside a multi-WRTE push); the device closing the stream on its own after 0..3 WRTEs; oracle: the stream monitor of mc/monitor.py (OPEN shape and fresh id, '
         '(local, announced remote) on every later packet, host OKAYs == device WRTEs, stop-and-wait, exactly one CLSE, nothing after it), the model stalling '
         'on a missing OKAY, and each result equal to the model\'s ground truth; non-trivial = sequence non-empty; distinct = distinct parameter tuple')
 ASSUMPTIONS = ['adbsim is a faithful adbd model', 'completion rules are asserted on operations that succeed (the quantifier of C04)']
@@ -173,6 +173,42 @@ def run_slow(params, ch):
         s.finish()
 
 
+def run_dies(params, ch):
+    """The device closes a stream on its own before the operation is through (service died: CLSE instead of the next WRTE).  Whatever the
+    call reports, the stream rules hold: that CLSE is answered with exactly one CLSE and nothing else follows on the stream; the next
+    operation on the connection works."""
+    cfg = scen.ops_cfg(params['chunking'], 4096, params['clse'], params['family'])
+    cfg['die'] = {'stream': 0, 'after': params['after']}
+    s = Session(ch, cfg, twin=params['twin'], eps=0.001)
+    try:
+        s.op(('connect',))
+        kw = {'transport_timeout_s': 0.05, 'read_timeout_s': 0.2}
+        op = scen.op_tuple(params['op'], 9000)
+        op = op[:-1] + (dict(op[-1], **kw),) if isinstance(op[-1], dict) else op + (kw,)
+        r = s.op(op)
+        r2 = s.op(scen.op_tuple('stat'))
+        viol = oracle.base_viol(s, completed=False)
+        want = scen.op_expected(params['op'], cfg)
+        if params['op'] in ('shell', 'exec_out', 'streaming_shell', 'root'):
+            # a command whose stream the device closes has simply ended: what was written before is its output
+            full = want[1] if want[1] is not None else b''
+            if r[0] == 'ok' and r[1] is not None and (list(full[:len(r[1])]) != list(r[1])):
+                viol.append({'msg': '%s returned %r, the device wrote (a prefix of) %r' % (params['op'], r, full)})
+        elif r[0] == 'ok' and r != want:
+            viol.append({'msg': '%s returned %r although the device closed the stream early; expected an error or %r' % (params['op'], r, want)})
+        if r2 != scen.op_expected('stat', cfg):
+            viol.append({'msg': 'stat after a stream that the device closed early returned %r' % (r2,)})
+        from .. import monitor
+        _m, streams = monitor.check(s.env.events, completed=False)
+        st = streams[0] if streams else None
+        if st is not None and st.d_clse and st.h_clse > 1:
+            viol.append({'msg': 'the device closed the stream; the host sent %d CLSE packets on it' % st.h_clse})
+        return {'outcome': (r[:2], st.h_clse if st else None, st.d_wrte if st else None), 'viol': viol, 'nontrivial': tuple(sorted((k, str(v)) for k, v in params.items())),
+                'sample': dict(params, result=r[:2], host_clse=st.h_clse if st else None), 'trans': len(s.env.events)}
+    finally:
+        s.finish()
+
+
 def run_interleaved(params, ch):
     """Two live streams on one thread: a suspended streaming_shell whose packets get parked while another operation runs."""
     from . import c01
@@ -225,5 +261,9 @@ def parts(tier):
     sc7 += [{'kind': 'push', 'twin': t, 'size': z, 'nth': n, 'delay': d, 'cb': cb} for t in ('sync', 'async') for z in (5000, 9000) for n in (1, 2, 3, 4) for d in (0.5, 1.5, 30.0) for cb in (None, 'count', 'raise')]
     slow = Part('slow-device', sc7, run_slow, {'dev-order': None}, what='a slow but legal device on an advancing clock: late WRTEs / CLSE against the total timeout_s of shell and exec_out, and a late OKAY for the n-th WRTE of a '
                 'multi-WRTE push (read timeout 1 s)', bound='%d cases' % len(sc7))
-    return [early, okord, inflight, inter, aband, slow, Part('op-sequences', sc, run_seq, {'dev-order': None}, what='operation sequences of length <=%d x device parameters' % k,
+    sc8 = [{'op': o, 'after': a, 'chunking': chk, 'clse': c, 'family': f, 'twin': t} for o in scen.OPS8 for a in (0, 1, 2, 3) for chk in ('two', 'bytes') for c in ('after-ack', 'eager') for f in ('small', 'mirror')
+           for t in ('sync', 'async')]
+    dies = Part('device-closes-early', sc8, run_dies, {'dev-order': None}, what='the device closes the stream on its own after 0..3 of its WRTEs (service died), for each of the 8 operations; then another operation',
+                bound='%d cases' % len(sc8))
+    return [early, okord, inflight, inter, aband, slow, dies, Part('op-sequences', sc, run_seq, {'dev-order': None}, what='operation sequences of length <=%d x device parameters' % k,
                       bound='length <=%d%s' % (k, '; length-3 sequences at maxdata 4096 only' if k == 3 else ''))]
